@@ -1184,9 +1184,11 @@ class Area:
                 self.out.append(f"def {name} : {self.lean_ty(d['ty'])} := {v.lean}")
                 self.out.append("")
                 self.consts[name] = d["ty"]
-                self.report.append({"function": f"{c.get('file', self.spec['file'])}::{name}", "lean": f"Generated.{self.spec['area']}.{name}", "ok": True})
+                self.report.append({"function": f"{c.get('file', self.spec['file'])}::{name}", "lean": f"Generated.{self.spec['area']}.{name}", "ok": True,
+                                    "theorem": c.get("theorem")})
             except Unsupported as e:
-                self.report.append({"function": f"{c.get('file', self.spec['file'])}::{name}", "lean": f"Generated.{self.spec['area']}.{name}", "ok": False, "error": str(e)})
+                self.report.append({"function": f"{c.get('file', self.spec['file'])}::{name}", "lean": f"Generated.{self.spec['area']}.{name}", "ok": False,
+                                    "theorem": c.get("theorem"), "error": str(e)})
 
     def emit_fns(self):
         spec = self.spec
@@ -1673,18 +1675,27 @@ class FnTr:
         while i < len(arms):
             pat, guard, body = arms[i]
             alts = pat[1] if pat[0] == "p_or" else [pat]
+            if guard is not None:
+                # `P if g => e`: when g fails the REMAINING arms are tried; values not matching P go there too
+                if i + 1 >= len(arms):
+                    self.fail("guard on the last match arm (no fall-through arm)")
+                restm = self.arms_from(sv, arms, i + 1, env, body_tr)
+                for alt in alts:
+                    env2 = dict(env)
+                    lp = self.pat(alt, sv.ty, env2)
+                    b = body_tr(body, env2)
+                    g = self.ex(guard, env2)
+                    ite = "if " + g.lean + " then\n" + ind(b) + "\nelse\n" + ind(restm)
+                    lines.append(f"| {lp} =>\n{ind(self.wrap(ite))}")
+                if not (len(alts) == 1 and alts[0][0] in ("p_wild", "p_bind")):
+                    lines.append(f"| _ =>\n{ind(self.wrap(restm))}")
+                return "\n".join(lines)
             for alt in alts:
                 env2 = dict(env)
                 lp = self.pat(alt, sv.ty, env2)
                 b = body_tr(body, env2)
-                if guard is not None:
-                    g = self.ex(guard, env2)
-                    if i + 1 >= len(arms):
-                        self.fail("guard on the last match arm (no fall-through arm)")
-                    restm = self.arms_from(sv, arms, i + 1, env, body_tr)
-                    b = f"if {g.lean} then\n{ind(b)}\nelse\n{ind(restm)}"
                 lines.append(f"| {lp} =>\n{ind(self.wrap(b))}")
-            if pat[0] in ("p_wild", "p_bind") and guard is None:
+            if pat[0] in ("p_wild", "p_bind"):
                 break
             i += 1
         return "\n".join(lines)
